@@ -625,7 +625,11 @@ def _run(prop, tier, chk):
                     del outs
                     # the same entries on long-lived formatters: every entry is still judged on its own
                     # against TLC's expectation for that entry (no entry may depend on its predecessors)
-                    for shuffled in (False, True):
+                    # (large thorough slices: the shuffled order only, debug profile only)
+                    large = count > 50000
+                    if large and rel:
+                        continue
+                    for shuffled in ((True,) if large else (False, True)):
                         lst = reuse_pass(beh, chk.seed, shuffled)
                         outs = drive(chk, lst, rel, f"{name}-{beh[0]['id']}-reuse", reuse=True)
                         _evaluate(chk, prop, lst, outs, not rel, stats, "reuse-shuffled" if shuffled else "reuse")
